@@ -134,6 +134,7 @@ func runC17(t *testing.T, tier string) int {
 		}
 		defer w.Close()
 		w.SeqTick = false
+		w.Sub = safeSub{w.Sub}
 		ctx := context.Background()
 		topics := []string{"projects/p/topics/t", "projects/p/topics/dl", "projects/p/topics/dl2"}
 		for _, tn := range topics {
@@ -562,4 +563,31 @@ func pgCases(tier string) []pgCase {
 		}
 	}
 	return out
+}
+
+// safeSub turns a panic inside an in-process handler into an error: for this
+// check a panicking request is a rejected request, not a harness crash.
+type safeSub struct{ pubsubpb.SubscriberServer }
+
+func guard(err *error) {
+	if p := recover(); p != nil {
+		*err = fmt.Errorf("handler panicked: %v", p)
+	}
+}
+
+func (s safeSub) CreateSubscription(ctx context.Context, r *pubsubpb.Subscription) (resp *pubsubpb.Subscription, err error) {
+	defer guard(&err)
+	return s.SubscriberServer.CreateSubscription(ctx, r)
+}
+func (s safeSub) GetSubscription(ctx context.Context, r *pubsubpb.GetSubscriptionRequest) (resp *pubsubpb.Subscription, err error) {
+	defer guard(&err)
+	return s.SubscriberServer.GetSubscription(ctx, r)
+}
+func (s safeSub) UpdateSubscription(ctx context.Context, r *pubsubpb.UpdateSubscriptionRequest) (resp *pubsubpb.Subscription, err error) {
+	defer guard(&err)
+	return s.SubscriberServer.UpdateSubscription(ctx, r)
+}
+func (s safeSub) ListSubscriptions(ctx context.Context, r *pubsubpb.ListSubscriptionsRequest) (resp *pubsubpb.ListSubscriptionsResponse, err error) {
+	defer guard(&err)
+	return s.SubscriberServer.ListSubscriptions(ctx, r)
 }
